@@ -1,0 +1,56 @@
+//go:build verif
+
+// Contracts for package pex, checked by /verif/govc (comment-only; see /verif/DESIGN.md).
+package pex
+
+// ---------------------------------------------------------------- C18: the peer-exchange reactor's intake
+// decodeMsg hands over the inner message of the oneof wrapper the generated unmarshaller allocated, or an
+// error (trusted, as for the other reactors' decoders; it writes only what it allocates).
+//@ trusted func decodeMsg(bz []byte) (r proto.Message, err error)
+//@   modifies nothing
+//@   ensures err == nil ==> dyntype(r) == typeid(*kp2p.PexRequest) || dyntype(r) == typeid(*kp2p.PexAddrs)
+//@   ensures err == nil && dyntype(r) == typeid(*kp2p.PexRequest) ==> unbox(r, *kp2p.PexRequest) != nil
+//@   ensures err == nil && dyntype(r) == typeid(*kp2p.PexAddrs) ==> unbox(r, *kp2p.PexAddrs) != nil
+
+// The reactor's collaborators as Receive uses them (trusted frames: each touches its own bookkeeping).
+//@ trusted func (p p2p.Peer) ID() (r p2p.ID)
+//@   modifies nothing
+//@ trusted func (p p2p.Peer) IsOutbound() (r bool)
+//@   modifies nothing
+//@ trusted func (p p2p.Peer) SocketAddr() (r *p2p.NetAddress)
+//@   modifies nothing
+//@ trusted func (b AddrBook) MarkBad(addr *p2p.NetAddress, d time.Duration)
+//@   modifies nothing
+//@ trusted func (b AddrBook) GetSelection() (r []*p2p.NetAddress)
+//@   modifies nothing
+//@ trusted func (b AddrBook) GetSelectionWithBias(biasTowardsNewAddrs int) (r []*p2p.NetAddress)
+//@   modifies nothing
+//@ trusted func (r *Reactor) SendAddrs(p Peer, netAddrs []*p2p.NetAddress)
+//@   requires r != nil
+//@   modifies nothing
+//@ trusted func (r *Reactor) ReceiveAddrs(addrs []*p2p.NetAddress, src Peer) (err error)
+//@   requires r != nil
+//@   modifies nothing
+
+// A request is answered at most once per minimum interval: the time of the last request is kept per peer
+// id, and what is stored under an id is always a time (the type assertion cannot fail).
+//@ trusted func (r *Reactor) receiveRequest(src Peer) (err error)
+//@   requires r != nil
+//@   modifies nothing
+//@ aspect func (r *Reactor) receiveRequest(src Peer) (err error)
+//@   for C18
+//@   requires r != nil && r.lastReceivedRequests != nil && src != nil
+//@   modifies *
+//@   opt assumecallreqs
+//@   atcall CMap.Set requires [onlyTimesAreStored] dyntype(value) == typeid(time.Time)
+
+// Receive: whatever the bytes, nothing panics; addresses are added to the book only from a decoded list
+// whose every element converted; a peer that sends garbage, an unsolicited list, or requests too often
+// is stopped (and marked bad).
+//@ func (r *Reactor) Receive(chID byte, src Peer, msgBytes []byte)
+//@   for C18
+//@   safe
+//@   requires r != nil && r.Switch != nil && r.Logger != nil && r.book != nil && r.config != nil && r.lastReceivedRequests != nil && r.requestsSent != nil && src != nil
+//@   modifies *
+//@   opt assumecallreqs
+//@   atcall Reactor.ReceiveAddrs requires [onlyFullyConvertedLists] result(NetAddressesFromProto, 1) == nil && sameArray(addrs, result(NetAddressesFromProto, 0))
